@@ -119,6 +119,17 @@ CLAIMS = {
              "are not decided.",
         note="Trusted: datetime/timedelta and IEEE-754 semantics; timedelta components normalised as datetime guarantees.",
         technique=TECH + "; idiom normal forms for integer kernels"),
+    "C15": dict(
+        text="Static analysis: the request ID's packed form, as_u32(), decoded form and construction from a header are each compared "
+             "per bit with the first four octets of the C01 reference table (all 2^32 values); __eq__/__hash__ must key on as_u32(); "
+             "packet-field enums are big-endian unsigned of pfc/8 octets both ways; report source data (request id | step id | "
+             "failure code | failure data) per bit for every presence combination and each of the eight helpers; the acceptance "
+             "table of verify_against_subservice for all 8x2x2 combinations; the decoder per subservice octet, timestamp length and "
+             "field-width choice with offsets 13+T, +4, +S, reads in bounds and inside the declared packet; the equality closure "
+             "must mention every field of both operands.",
+        note="Trusted: C01 reference table; ECSS-E-ST-70-41C 8.1.2 report structure. Decoder analysed for timestamp lengths 0 and 7 and "
+             "2 (quick) / 4 (thorough) width pairs.",
+        technique=TECH + "; finite case analysis over subservices and parameter presence"),
 }
 
 NOT_CLAIMED = {}
